@@ -69,6 +69,7 @@ type Frame struct {
 	loopEntry map[*ssa.BasicBlock]*State
 	inDefer  bool
 	autoInv  map[*ssa.BasicBlock][]autoInv
+	atCount  map[string]int
 }
 
 type autoInv struct {
